@@ -148,8 +148,10 @@ def check_run(fr, case, plan_desc, base_texts=None):
                                 'Timeout' % (plan_desc, which))
             want = b.status.rstrip('*')
             if b.status.endswith('*'):
-                # incumbent without exceeding the limit cannot happen (clock advanced by T)
-                raise HarnessError('incumbent fault did not exceed the time limit')
+                # a solve stopped by a limit smaller than the user's, with an incumbent, in a
+                # run that stayed within the user's limit: no matching (checked above); which
+                # status line is shown for it is not specified
+                continue
             if parsed['pulp_status'] != want:
                 raise Violation('wrong_status_shown', 'first unproven solve %d of %d ended %s (%s) '
                                 'but the %s results show pulp_status %r' % (
